@@ -118,6 +118,8 @@ def run(c, chk):
         chk.ok('R9.5', 'cfg_opt_rmnsec: %d removing paths' % nrm, 'later slots move down by one (memmove of n-index-1 slots from index+1 to index), count decremented', sample=True)
     chk.floor('R9.5 removing paths', nrm, 1)
 
+    copy_before_release(c, chk, ex)
+
     # ---- R9.3 --------------------------------------------------------------------------------
     sites = title_sites(c, ex)
     # the merge site used by the parser ("a repeated title replaces that section in place") must fold case
@@ -161,6 +163,49 @@ def run(c, chk):
                     chk.fail('R9.4', 'dropped-result:%s:%s' % (fname, n_), c.where(call),
                              '%s() ignores the result of %s() and reports success regardless' % (fname, n_))
     chk.floor('R9.4 wrapper call sites', nw, 10)
+
+
+def copy_before_release(c, chk, ex):
+    """R9.6: a setter that stores a copy of a string argument makes the copy before it releases anything: the argument
+    may point into what the option holds now (storing an option's current value again is a no-op for the store)"""
+    chk.rule('R9.6', 'a setter duplicates its string argument before it releases any value of the option (the argument may be the option\'s own current value)')
+    cg = c.callgraph
+    rel = set(n for n, cs in cg.items() if 'free' in cs)
+    changed = True
+    while changed:
+        changed = False
+        for n, cs in cg.items():
+            if n not in rel and cs & rel:
+                rel.add(n)
+                changed = True
+    from .c19 import possible_types
+    n = 0
+    for fname in ('cfg_opt_setnstr', 'cfg_opt_setcomment', 'cfg_setopt', 'cfg_opt_setmulti'):
+        f = c.need(fname)
+        sparams = [('p', f.param_names.get(p_.name, p_.name)) for p_ in f.params if p_.ty == 'i8*']
+        bad = None
+        for p in ex.explore(f):
+            if p.end != 'ret':
+                continue
+            for i, e in enumerate(p.events):
+                if not (e.kind == 'call' and e.name in ('strdup', 'strndup') and e.args and e.args[0] in sparams):
+                    continue
+                n += 1
+                if fname == 'cfg_setopt' and possible_types(c, p) == {'CFGT_SEC'}:
+                    continue      # a title: default values (the only thing released first) do not exist for sections
+                before = [x for x in p.events[:i] if x.kind == 'call' and not x.inlined and (x.name in rel or x.name == 'free')
+                          and not (x.name == 'free' and x.args and x.args[0][0] == 'call')]
+                if before and bad is None:
+                    bad = (e, before[0])
+        if bad:
+            e, b = bad
+            chk.fail('R9.6', 'release-before-copy:%s' % fname, c.where(e.ins),
+                     '%s() calls %s(), which can release the option\'s current values, before it has duplicated its argument %s: '
+                     'storing the value the option already has (e.g. cfg_setstr(cfg, n, cfg_getstr(cfg, n)) on a default) reads freed memory'
+                     % (fname, b.name, sym.render(e.args[0])))
+        else:
+            chk.ok('R9.6', fname, 'the argument is duplicated before anything is released', sample=(fname == 'cfg_opt_setnstr'))
+    chk.floor('R9.6 argument copies', n, 3)
 
 
 def title_sites(c, ex):
